@@ -51,7 +51,15 @@ Print Assumptions C19_fee_bounds.
    owner, or the forwarder's own forward() - swallowing or propagating the failure.  [wf_call] (a
    boolean, trivially true for the other target functions) says that nobody among the signers of
    this call authorised that inner call and that its principal is not the target itself; then the
-   inner call is refused and the effects are exactly the ones above (see also C19_target_once). *)
+   inner call is refused and the effects are exactly the ones above (see also C19_target_once).
+   [mv = tgt_moves c target fn args] is the effect of the signed target call ITSELF when the target
+   is a fee token ([None] for every other target, last-but-one clause): the forwarder, as direct
+   invoker, is made to call token.transfer_from(spender, from, to, amt) or token.transfer(from, to,
+   amt); [tgt_delta] = from - amt, to + amt on that token, [tgt_alw] = the (from -> spender)
+   allowance less amt.  With spender = the forwarder and from = the user this spends the allowance the
+   fee collection has just left in place (max - fee, or old - fee): the user is debited fee + amt -
+   both amounts the user signed (C19_needs_user_auth_over_exact_args), neither the relayer's choice.
+   [wf_call] also says that every principal involved is in the header's observed tables. *)
 Theorem C19_exact_debit_credit :
   forall c cs k tok fee max exp target fn args user relayer au st' ret,
   1 <= min_temp_ttl (c_host c) ->
@@ -62,19 +70,24 @@ Theorem C19_exact_debit_credit :
   let recipient := match k with Permissioned => F | Permissionless => relayer end in
   let old := allowance_data (now st) (get_tok st tok) user F in
   let fresh := match k with Permissioned => fst old <? max | Permissionless => true end in
+  let mv := tgt_moves c target fn args in
   (forall t h, balance (get_tok st' t) h =
      balance (get_tok st t) h +
-     (if N.eqb t tok then (if N.eqb h recipient then fee else 0) - (if N.eqb h user then fee else 0) else 0)) /\
+     (if N.eqb t tok then (if N.eqb h recipient then fee else 0) - (if N.eqb h user then fee else 0) else 0) +
+     tgt_delta mv target t h) /\
   (forall t, t_total (get_tok st' t) = t_total (get_tok st t)) /\
   (forall t o s, allowance_data (now st') (get_tok st' t) o s =
-     if N.eqb t tok && N.eqb o user && N.eqb s F
-     then (if fresh then (max - fee, exp) else (fst old - fee, snd old))
-     else allowance_data (now st) (get_tok st t) o s) /\
+     tgt_alw mv target t o s
+       (if N.eqb t tok && N.eqb o user && N.eqb s F
+        then (if fresh then (max - fee, exp) else (fst old - fee, snd old))
+        else allowance_data (now st) (get_tok st t) o s)) /\
   (fresh = true ->
      exists e, In e au /\ en_who e = user /\
        let ap := {| f_contract := tok; f_name := F_APPROVE; f_args := [VA user; VA F; VI max; VI exp] |} in
        (en_root e = ap \/ In ap (en_subs e))) /\
-  now st <= exp /\ now st' = now st.
+  now st <= exp /\ now st' = now st /\
+  (memb target (c_tokens c) = false -> mv = None) /\
+  (forall from to amt sp, mv = Some (from, to, amt, sp) -> 0 <= amt).
 Proof. exact forward_exact_debit_credit. Qed.
 Print Assumptions C19_exact_debit_credit.
 
@@ -104,7 +117,15 @@ Print Assumptions C19_fresh_approval_under_user_tree.
    (a) a forward naming that account as the user, on that token, carrying an entry SIGNED BY THAT
        ACCOUNT over the exact tuple - and then the balance is lower by exactly the stated fee,
        0 < fee <= the authorised maximum; or
-   (b) a manager's sweep, for the permissioned forwarder's own balance. *)
+   (b) a forward whose TARGET is that fee token: the account is the [from] of the token function the
+       forwarder is made to call (transfer_from / transfer) - a call whose exact contract, function
+       and arguments the user of that forward signed.  [from] may be the user (through the allowance
+       given to the forwarder), the forwarder itself (its own balance: a documented caveat of
+       forwarding arbitrary calls from a contract that holds funds) or a third party that authorised
+       it; or
+   (c) a manager's sweep, for the permissioned forwarder's own balance.
+   Not covered: a forward to a harness target that itself holds an allowance from a third party
+   ([wf_call] excludes target = spender of the re-entrant pull). *)
 Theorem C19_debit_only_by_authorised_forward : forall c cs cl st' ret t h,
   1 <= min_temp_ttl (c_host c) ->
   wf_call c cl = true ->
@@ -114,10 +135,16 @@ Theorem C19_debit_only_by_authorised_forward : forall c cs cl st' ret t h,
   (exists k fee max exp target fn args relayer au,
      cl = Forward k t fee max exp target fn args h relayer au /\
      0 < fee <= max /\
-     balance (get_tok st' t) h = balance (get_tok st t) h - fee /\
+     (memb target (c_tokens c) = false -> balance (get_tok st' t) h = balance (get_tok st t) h - fee) /\
      exists e, In e au /\ en_who e = h /\
        en_root e = {| f_contract := fwd_addr c k; f_name := F_FORWARD;
                       f_args := [VA t; VI max; VI exp; VA target; VS fn; VL args] |})
+  \/ (exists k tok fee max exp fn args user relayer au to amt sp,
+        cl = Forward k tok fee max exp t fn args user relayer au /\
+        tgt_moves c t fn args = Some (h, to, amt, sp) /\ 0 < amt /\
+        exists e, In e au /\ en_who e = user /\
+          en_root e = {| f_contract := fwd_addr c k; f_name := F_FORWARD;
+                         f_args := [VA tok; VI max; VI exp; VA t; VS fn; VL args] |})
   \/ (exists recipient operator au,
         cl = Sweep t recipient operator au /\ h = c_fp c /\ In operator (c_managers c)).
 Proof. exact debit_only_by_authorised_forward. Qed.
@@ -125,23 +152,33 @@ Print Assumptions C19_debit_only_by_authorised_forward.
 
 (* A successful forward invokes exactly the stated target call, once: the target's log grows by
    exactly (fn, args), no other target is touched, and the value returned is the target's.  A
-   re-entering target function (is_script) also logs the result of its inner call: 0 = refused. *)
+   re-entering target function (is_script) also logs the result of its inner call: 0 = refused.
+   A fee token as target touches no harness target (its single effect is in C19_exact_debit_credit).
+   NOTE: in the model [forward] calls the target once by construction; this theorem reads that
+   structure back (plus: the re-entrant inner call is refused).  That the CODE invokes the target
+   exactly once rests on the correspondence run (the real target's log / the real token's
+   balances after every call), not on this theorem. *)
 Theorem C19_target_once :
   forall c st k tok fee max exp target fn args user relayer au st' ret,
   1 <= min_temp_ttl (c_host c) ->
   wf_call c (Forward k tok fee max exp target fn args user relayer au) = true ->
   step_ok c st (Forward k tok fee max exp target fn args user relayer au) = Ok (st', ret) ->
-  In target (c_targets c) /\
-  (forall g, get_log (logs st') g =
-     if N.eqb g target
-     then get_log (logs st) target ++ [if is_script fn then (fn, args ++ [AI 0]) else (fn, args)]
-     else get_log (logs st) g) /\
-  ret = Z.of_nat (length (get_log (logs st') target)).
+  if memb target (c_tokens c)
+  then tgt_moves c target fn args <> None /\ logs st' = logs st /\ ret = 0
+  else In target (c_targets c) /\
+       (forall g, get_log (logs st') g =
+          if N.eqb g target
+          then get_log (logs st) target ++ [if is_script fn then (fn, args ++ [AI 0]) else (fn, args)]
+          else get_log (logs st) g) /\
+       ret = Z.of_nat (length (get_log (logs st') target)).
 Proof. exact forward_target_once. Qed.
 Print Assumptions C19_target_once.
 
-(* If any step fails nothing persists (in the model by construction: host rollback; the
-   correspondence run compares the full observation after every failing call of the real code). *)
+(* If any step fails nothing persists.  NOTE: this restates the definition of [step] (a failing call
+   returns the old state = the host's rollback of a failed invocation, part of the trusted base); it
+   says nothing about partial effects inside the code.  The clause is carried by the correspondence
+   run: after EVERY failing call of the real code the full observation is compared with the previous
+   one (diff and monitor: [Fail => obs_eqb prev cur]). *)
 Theorem C19_atomic : forall c st cl,
   snd (step c st cl) = Fail ->
   fst (step c st cl) = st /\ observe c (fst (step c st cl)) = observe c st.
@@ -216,13 +253,19 @@ Print Assumptions C19_monitor_accepts_model.
 
 (* ---- non-vacuity: a concrete history with successful forwards through both examples ---- *)
 Example C19_example_run :
-  outcomes ex_trace = [Ok 0; Ok 1; Ok 0; Ok 2; Fail; Ok 0; Ok 0; Fail; Ok 0; Ok 3; Fail]
+  outcomes ex_trace = [Ok 0; Ok 1; Ok 0; Ok 2; Fail; Ok 0; Ok 0; Fail; Ok 0; Ok 3; Fail;
+                       Ok 0; Ok 0; Ok 4; Ok 17; Ok 5; Ok 0]
   /\ check ex_trace = (0%N, 0%N, 0%N)
   /\ forallb (wf_call ex_cfg) ex_calls = true
   /\ 1 <= min_temp_ttl (c_host ex_cfg)
-  /\ snd (run_abs ex_cfg ex_calls) = [3%N]
-  /\ enumeration (al (run ex_cfg ex_calls)) = [Some 3%N].
+  /\ snd (run_abs ex_cfg ex_calls) = [2%N; 3%N]
+  /\ enumeration (al (run ex_cfg ex_calls)) = [Some 3%N; Some 2%N].
 Proof. vm_compute. repeat split; try reflexivity; discriminate. Qed.
+
+(* the example covers: eager fresh approval (#2), lazy fresh approval (#4), fee > max (#5), token not
+   in the list (#8), re-entrant pull swallowed / propagated (#10, #11), lazy with a SUFFICIENT
+   allowance and an auth-requiring target (#14, no approval: fresh = false), sweep (#15), user = relayer
+   (#16), the fee token itself as target draining the residual allowance (#17) *)
 
 (* ---- the monitor rejects hand-made bad traces (second component = first failing call) ---- *)
 (* the user is charged one unit more than the stated fee *)
@@ -309,4 +352,24 @@ Example C19_monitor_rejects_reentrant_pull_debit :
 Proof. vm_compute. reflexivity. Qed.
 Example C19_monitor_rejects_reentrant_pull_allowance :
   snd (fst (check (tamper 9 (on_obs (put_alw 1 (0, 200))) ex_trace))) = 10%N.
+Proof. vm_compute. reflexivity. Qed.
+(* the header does not list the user among the allowance owners / lists nothing at all: the call is
+   not well-formed (its effects would be unobservable) and is REJECTED, not silently monitored *)
+Example C19_monitor_rejects_unobserved_principal :
+  snd (fst (check (observe_model ex_cfg_noowner ex_calls))) = 2%N
+  /\ snd (fst (check (observe_model ex_cfg_empty ex_calls))) = 1%N.
+Proof. vm_compute. split; reflexivity. Qed.
+(* the fresh approval is authorised by a separate ROOT entry of the user, not under the forward tree *)
+Example C19_monitor_rejects_approval_outside_tree :
+  snd (fst (check (tamper 1 (on_call approve_as_root) ex_trace))) = 2%N.
+Proof. vm_compute. reflexivity. Qed.
+(* target = the fee token (call #17): the recipient of the signed transfer_from gets one unit more /
+   the allowance is consumed by neither the fee nor the transfer_from.  (The monitor accepts both
+   orders of fee collection and target call - the property does not fix it; the code's order, fee
+   first, is enforced by the diff only.) *)
+Example C19_monitor_rejects_token_target_overpaid :
+  snd (fst (check (tamper 16 (on_obs (bump_bal 2 1)) ex_trace))) = 17%N.
+Proof. vm_compute. reflexivity. Qed.
+Example C19_monitor_rejects_token_target_allowance_kept :
+  snd (fst (check (tamper 16 (on_obs (put_alw 1 (30, 300))) ex_trace))) = 17%N.
 Proof. vm_compute. reflexivity. Qed.
